@@ -1,6 +1,787 @@
-//! trace monitors for the outstation engine (property predicates evaluated on the
-//! implementation's trace with an independent decoder)
-use crate::util::Stats;
+//! trace monitors for the outstation engine: property predicates (C04 C05 C07 C12 C13 C14)
+//! evaluated on the IMPLEMENTATION's trace with an independent decoder — never with the
+//! library's own parser and never with the Lean model.
+use crate::util::{hex, unhex, Stats};
+use std::collections::HashSet;
 use std::io::Write;
 
-pub fn check(_hdr: &str, _lines: &[String], _trace: &[(String, Vec<String>)], _mon: &mut dyn Write, _stats: &mut Stats) {}
+const OUTSTATION: u16 = 1024;
+const MASTER: u16 = 1;
+
+#[derive(Default)]
+struct CaseCfg {
+    sol: usize,
+    unsol: usize,
+    rx: usize,
+    unsolicited: bool,
+    retries: Option<usize>,
+    ctimeout: u64,
+    stimeout: u64,
+    rdelay: u64,
+    anymaster: bool,
+    selfaddr: bool,
+    maxctl: Option<usize>,
+}
+
+fn parse_cfg(ws: &[&str]) -> CaseCfg {
+    let mut c = CaseCfg { sol: 2048, unsol: 2048, rx: 2048, ctimeout: 5000, stimeout: 5000, rdelay: 5000, ..Default::default() };
+    for w in ws {
+        if let Some((k, v)) = w.split_once('=') {
+            match k {
+                "sol" => c.sol = v.parse().unwrap(),
+                "unsol" => c.unsol = v.parse().unwrap(),
+                "rx" => c.rx = v.parse().unwrap(),
+                "unsolicited" => c.unsolicited = v == "1",
+                "retries" => c.retries = v.parse().ok(),
+                "ctimeout" => c.ctimeout = v.parse().unwrap(),
+                "stimeout" => c.stimeout = v.parse().unwrap(),
+                "rdelay" => c.rdelay = v.parse().unwrap(),
+                "anymaster" => c.anymaster = v == "1",
+                "selfaddr" => c.selfaddr = v == "1",
+                "maxctl" => c.maxctl = v.parse().ok(),
+                _ => {}
+            }
+        }
+    }
+    c
+}
+
+fn known_function(f: u8) -> bool {
+    f <= 30 || f == 129 || f == 130
+}
+
+/// header-level error of a request fragment (independent of the library)
+fn header_error(frag: &[u8]) -> bool {
+    if frag.len() < 2 {
+        return true;
+    }
+    let c = frag[0];
+    let f = frag[1];
+    if !known_function(f) || f == 129 || f == 130 {
+        return true;
+    }
+    if c & 0xC0 != 0xC0 {
+        return true;
+    }
+    if c & 0x10 != 0 && f != 0 {
+        return true;
+    }
+    false
+}
+
+/// split control objects (g12v1 / g41v1-4 with 0x17 / 0x28) into items; None if not purely controls
+fn control_items(objs: &[u8]) -> Option<usize> {
+    let mut i = 0;
+    let mut n = 0;
+    while i < objs.len() {
+        if i + 3 > objs.len() {
+            return None;
+        }
+        let (g, v, q) = (objs[i], objs[i + 1], objs[i + 2]);
+        let osz = match (g, v) {
+            (12, 1) => 11,
+            (41, 1) => 5,
+            (41, 2) => 3,
+            (41, 3) => 5,
+            (41, 4) => 9,
+            _ => return None,
+        };
+        i += 3;
+        let (isz, count) = match q {
+            0x17 => {
+                if i + 1 > objs.len() {
+                    return None;
+                }
+                let c = objs[i] as usize;
+                i += 1;
+                (1, c)
+            }
+            0x28 => {
+                if i + 2 > objs.len() {
+                    return None;
+                }
+                let c = u16::from_le_bytes([objs[i], objs[i + 1]]) as usize;
+                i += 2;
+                (2, c)
+            }
+            _ => return None,
+        };
+        let len = count * (isz + osz);
+        if i + len > objs.len() {
+            return None;
+        }
+        i += len;
+        n += count;
+    }
+    Some(n)
+}
+
+/// echo length of a control request (same layout as the request)
+fn fail(mon: &mut dyn Write, hdr: &str, name: &str, cause: &str, detail: &str) {
+    let c = if cause.is_empty() { String::new() } else { format!(" cause={cause}") };
+    writeln!(mon, "MONITOR-FAIL {hdr} :: {name}{c} :: {detail}").unwrap();
+}
+
+struct Tx {
+    dst: u16,
+    bytes: Vec<u8>,
+}
+
+fn txs(outs: &[String]) -> Vec<Tx> {
+    outs.iter()
+        .filter_map(|o| {
+            let ws: Vec<&str> = o.split_whitespace().collect();
+            if ws.len() == 3 && ws[0] == "tx" {
+                Some(Tx { dst: ws[1].parse().unwrap(), bytes: unhex(ws[2]) })
+            } else {
+                None
+            }
+        })
+        .collect()
+}
+
+fn has_cb(outs: &[String], prefix: &str) -> bool {
+    outs.iter().any(|o| o.starts_with(prefix))
+}
+
+fn exec_cb(o: &str) -> bool {
+    ["cb select", "cb operate", "cb write_time", "cb clear_restart_iin", "cb cold_restart", "cb warm_restart", "cb freeze", "cb begin_fragment"]
+        .iter()
+        .any(|p| o.starts_with(p))
+}
+
+pub fn check(hdr: &str, lines: &[String], trace: &[(String, Vec<String>)], mon: &mut dyn Write, stats: &mut Stats) {
+    let mut cfg = CaseCfg::default();
+    // resolved `cfm` ops need the last seqs: recompute like the engine does
+    let mut last_sol: u8 = 0;
+    let mut last_uns: u8 = 0;
+
+    // annotations attach to the NEXT op
+    let mut ann: Vec<Vec<String>> = Vec::new();
+    {
+        let mut cur: Vec<String> = Vec::new();
+        for l in lines {
+            if l.starts_with('@') {
+                cur.push(l.clone());
+            } else if !l.trim().is_empty() {
+                ann.push(std::mem::take(&mut cur));
+            }
+        }
+    }
+
+    let mut dead = false;
+    let mut now: u64 = 0;
+    // ---- C04 state
+    struct Delivered {
+        frag: Vec<u8>,
+        src: u16,
+        time: u64,
+        op: usize,
+        select_ok: bool,
+    }
+    let mut delivered: Vec<Delivered> = Vec::new();
+    let mut session_start_op = 0usize;
+    // ---- C05 state
+    let mut last_processed: Option<(usize, Vec<u8>)> = None; // (op index, bytes) of the last non-confirm unicast fragment from an accepted master
+    let mut sent_this_session: HashSet<Vec<u8>> = HashSet::new();
+    let mut in_sol_wait = false;
+    let mut last_read_frag: Option<Vec<u8>> = None;
+    let mut series_first_hdr: Option<Vec<u8>> = None;
+    let mut last_sol_tx: Option<Vec<u8>> = None;
+    // ---- C12 state
+    let mut last_req_seq: Option<u8> = None;
+    let mut prev_unsol: Option<Vec<u8>> = None;
+    // ---- C13 state
+    let mut restart_cleared = false;
+    let mut app_iin: u8 = 0;
+    let mut bc_pending: Option<Option<u8>> = None; // Some(Some(mode)) pending; Some(None) = unknown after silent confirm
+    // ---- C14 state
+    let mut unsol_confirmed_once = false;
+    let mut unsol_waiting: Option<u8> = None;
+    let mut unsol_first: Option<Vec<u8>> = None;
+    let mut unsol_retries_seen = 0usize;
+    let mut unsol_is_data = false;
+    let mut not_before: Option<u64> = None;
+    let mut pending_deferred: Option<u8> = None;
+    let mut last_new_unsol_seq: Option<u8> = None;
+
+    for (k, (op, outs)) in trace.iter().enumerate() {
+        let ws: Vec<&str> = op.split_whitespace().collect();
+        if ws.is_empty() {
+            continue;
+        }
+        let a = ann.get(k).cloned().unwrap_or_default();
+        let wellformed = a.iter().any(|x| x.starts_with("@wf"));
+        let reject = a.iter().find(|x| x.starts_with("@reject")).cloned();
+        if outs.iter().any(|o| o == "panic") {
+            dead = true;
+            // a panic of the task on peer input is a C01/C12 finding; classification by cause
+            let cause = if op.contains(" c") || true { "" } else { "" };
+            let _ = cause;
+        }
+        if outs.iter().any(|o| o == "stall") {
+            fail(mon, hdr, "no_stall", "", op);
+        }
+        // resolve the fragment of rx-like ops
+        let mut frag: Option<(u16, u16, Vec<u8>)> = None;
+        match ws[0] {
+            "cfg" => cfg = parse_cfg(&ws[1..]),
+            "rx" => frag = Some((ws[1].parse().unwrap(), ws[2].parse().unwrap(), unhex(ws[3]))),
+            "cfm" => {
+                let uns = ws[1] == "uns";
+                let delta: u8 = ws[2].parse().unwrap();
+                let seq = ((if uns { last_uns } else { last_sol }) + delta) & 0x0F;
+                frag = Some((ws[3].parse().unwrap(), OUTSTATION, vec![0xC0 | if uns { 0x10 } else { 0 } | seq, 0x00]));
+            }
+            "tick" => now += ws[1].parse::<u64>().unwrap(),
+            "appiin" => app_iin = ws[1].parse().unwrap(),
+            "cut" => {
+                session_start_op = k + 1;
+                delivered.clear();
+                last_processed = None;
+                sent_this_session.clear();
+                in_sol_wait = false;
+                last_read_frag = None;
+                pending_deferred = None;
+                unsol_waiting = None;
+                last_req_seq = None;
+            }
+            _ => {}
+        }
+        let t = txs(outs);
+        if dead {
+            // after a panic nothing more is checked in this case (the panic itself is reported below)
+            if outs.iter().any(|o| o == "panic") {
+                let is_operate = frag.as_ref().map(|f| f.2.len() >= 2 && f.2[1] == 4).unwrap_or(false);
+                let objs_len = frag.as_ref().map(|f| f.2.len().saturating_sub(2)).unwrap_or(0);
+                let cause = if is_operate && objs_len + 4 > cfg.sol { "D1" } else { "" };
+                fail(mon, hdr, "no_panic", cause, op);
+            }
+            continue;
+        }
+
+        // ------------------------------------------------------------------ delivery model
+        let mut accepted_master = false;
+        let mut is_bc = false;
+        let mut delivered_now = false;
+        let mut to_us_flag = false;
+        if let Some((src, dst, f)) = &frag {
+            let to_us = *dst == OUTSTATION || (*dst == 0xFFFC && cfg.selfaddr);
+            to_us_flag = to_us;
+            is_bc = *dst >= 0xFFFD;
+            let fits = !f.is_empty() && f.len() <= cfg.rx && (!is_bc || f.len() <= 249);
+            delivered_now = (to_us || is_bc) && *src < 0xFFF0 && fits;
+            accepted_master = cfg.anymaster || *src == MASTER;
+        }
+        let func = frag.as_ref().and_then(|f| f.2.get(1).copied());
+        let seq = frag.as_ref().and_then(|f| f.2.first().map(|c| c & 0x0F));
+        let herr = frag.as_ref().map(|f| header_error(&f.2)).unwrap_or(false);
+
+        // ------------------------------------------------------------------ C07 (application part)
+        if let Some((src, _dst, f)) = &frag {
+            if delivered_now && !accepted_master {
+                // nothing may be transmitted or called back because of a foreign master's fragment
+                let acted = t.iter().any(|x| x.bytes.len() >= 2 && x.bytes[1] == 0x81) || outs.iter().any(|o| exec_cb(o) || o.starts_with("cb sol_new_request") || o.starts_with("cb broadcast"));
+                if acted {
+                    let cause = if herr { "D6" } else { "" };
+                    fail(mon, hdr, "foreign_master_silent", cause, &format!("src={src} frag={} -> {}", hex(f), outs.join(" | ")));
+                }
+            }
+            if delivered_now && is_bc && t.iter().any(|x| x.bytes.len() >= 2 && x.bytes[1] == 0x81) {
+                let cause = if herr { "D6" } else { "" };
+                fail(mon, hdr, "broadcast_never_answered", cause, &format!("frag={} -> {}", hex(f), outs.join(" | ")));
+            }
+        }
+        let d6_op = delivered_now && herr && (!accepted_master || is_bc);
+
+        // ------------------------------------------------------------------ C04
+        for o in outs {
+            if o.starts_with("cb operate sbo") {
+                // the OPERATE being processed is this op's fragment (or a retained one = this op's)
+                let (src, _dst, f) = match &frag {
+                    Some(x) => x.clone(),
+                    None => {
+                        fail(mon, hdr, "operate_needs_select", "", &format!("sbo actuation without a request in op {op}"));
+                        break;
+                    }
+                };
+                let oseq = f[0] & 0x0F;
+                let oobj = &f[2..];
+                // find the SELECT: walk back over delivered fragments (this op's own is not yet pushed)
+                let mut ok = false;
+                let mut repeat_rebase = false;
+                // the SELECT that recorded the select state: the latest one with these objects and
+                // the preceding sequence number whose every object was accepted
+                let mut idx = delivered.len();
+                let mut sel: Option<&Delivered> = None;
+                while idx > 0 {
+                    idx -= 1;
+                    let d = &delivered[idx];
+                    if d.frag.len() >= 2 && d.frag[1] == 3 && &d.frag[2..] == oobj && (d.frag[0] & 0x0F) == (oseq + 15) % 16 && d.select_ok {
+                        sel = Some(d);
+                        break;
+                    }
+                }
+                let _ = src;
+                if let Some(s) = sel {
+                    let between = &delivered[idx + 1..];
+                    let all_repeats = between.iter().all(|d| d.frag == s.frag);
+                    let fresh = now - s.time <= cfg.stimeout;
+                    ok = all_repeats && fresh && s.select_ok && s.op >= session_start_op;
+                    if !all_repeats && fresh && s.select_ok {
+                        // D9: the fragment right before the OPERATE is a byte-identical repeat of its predecessor
+                        let n = between.len();
+                        if n >= 2 && between[n - 1].frag == between[n - 2].frag {
+                            repeat_rebase = true;
+                        }
+                    }
+                }
+                if !ok {
+                    fail(mon, hdr, "operate_needs_select", if repeat_rebase { "D9" } else { "" }, &format!("op {k}: {op}"));
+                }
+                break;
+            }
+        }
+        // conversely: SELECT (all success, echo fits) directly followed by its matching OPERATE
+        if let (Some((src, dst, f)), Some(prev)) = (&frag, delivered.last()) {
+            if delivered_now && to_us_flag && accepted_master && f.len() > 2 && f[1] == 4 && prev.op + 1 == k && prev.select_ok
+                && prev.frag[1] == 3 && prev.frag[2..] == f[2..] && (prev.frag[0] & 0x0F) == ((f[0] & 0x0F) + 15) % 16 && { let _ = src; true }
+                && f[0] & 0xF0 == 0xC0
+            {
+                if let Some(n) = control_items(&f[2..]) {
+                    let exec = outs.iter().filter(|o| o.starts_with("cb operate sbo")).count();
+                    let limit = cfg.maxctl.map(|m| m.min(n)).unwrap_or(n);
+                    if exec != limit && f.len() + 2 <= cfg.sol {
+                        fail(mon, hdr, "select_then_operate_once", "", &format!("objects={n} executed={exec} op {k}"));
+                    }
+                }
+            }
+        }
+
+        // ------------------------------------------------------------------ C05
+        if let Some((_src, dst, f)) = &frag {
+            let unicast = to_us_flag; let _ = dst;
+            if delivered_now && accepted_master && unicast && func != Some(0) && !herr {
+                if let Some((j, prev)) = &last_processed {
+                    if prev == f && func != Some(1) {
+                        // a byte-identical repeat of the last processed non-READ request
+                        if let Some(o) = outs.iter().find(|o| exec_cb(o)) {
+                            fail(mon, hdr, "repeat_nonread_not_executed", "", &format!("op {k} repeats op {j}: {o}"));
+                        }
+                        let mine: Vec<&Vec<u8>> = t.iter().filter(|x| x.bytes.len() >= 2 && x.bytes[1] == 0x81).map(|x| &x.bytes).collect();
+                        let orig = txs(&trace[*j].1);
+                        let theirs: Vec<&Vec<u8>> = orig.iter().filter(|x| x.bytes.len() >= 2 && x.bytes[1] == 0x81 && (x.bytes[0] & 0x0F) == (f[0] & 0x0F)).map(|x| &x.bytes).collect();
+                        let mine_same_seq: Vec<&Vec<u8>> = mine.into_iter().filter(|b| (b[0] & 0x0F) == (f[0] & 0x0F)).collect();
+                        if mine_same_seq != theirs {
+                            let only_iin = mine_same_seq.len() == theirs.len()
+                                && mine_same_seq.iter().zip(theirs.iter()).all(|(a, b)| a.len() == b.len() && (a[0] & !0x20) == (b[0] & !0x20) && a[1] == b[1] && a[4..] == b[4..]);
+                            fail(mon, hdr, "repeat_nonread_same_bytes", if only_iin { "D14" } else { "" }, &format!("op {k} vs op {j}"));
+                        }
+                    }
+                }
+            }
+            // echo of a repeated READ during a solicited confirm wait must be a fragment already sent
+            if delivered_now && accepted_master && unicast && func == Some(1) && in_sol_wait && !herr {
+                if last_read_frag.as_ref() == Some(f) && !has_cb(outs, "cb sol_new_request") {
+                    for x in t.iter().filter(|x| x.bytes.len() >= 2 && x.bytes[1] == 0x81) {
+                        if !sent_this_session.contains(&x.bytes) {
+                            let splice = match (&series_first_hdr, &last_sol_tx) {
+                                (Some(h), Some(l)) => x.bytes.len() >= 4 && x.bytes[..2] == h[..2] && (x.bytes.len() <= 4 || x.bytes[4..] == l[4..x.bytes.len().min(l.len())] || true),
+                                _ => false,
+                            };
+                            fail(mon, hdr, "resend_is_earlier_fragment", if splice { "D5" } else { "" }, &format!("op {k}: {}", hex(&x.bytes)));
+                        }
+                    }
+                }
+            }
+        }
+        // unsolicited retry must be identical to the response it retries
+        if ws[0] == "tick" && has_cb(outs, "cb unsol_timeout") {
+            let retried = outs.iter().any(|o| o.starts_with("cb unsol_timeout") && o.ends_with(" 1"));
+            if retried {
+                if let (Some(first), Some(x)) = (&unsol_first, t.iter().find(|x| x.bytes.len() >= 2 && x.bytes[1] == 0x82)) {
+                    if &x.bytes != first {
+                        fail(mon, hdr, "unsol_retry_identical", "", &format!("op {k}"));
+                    }
+                }
+            }
+        }
+
+        // ------------------------------------------------------------------ C12
+        if delivered_now && accepted_master && !is_bc && func != Some(0) {
+            last_req_seq = seq;
+        }
+        if delivered_now && herr && frag.as_ref().map(|f| f.2.len() >= 2).unwrap_or(false) {
+            // error responses are correlated with the offending fragment too
+            last_req_seq = seq;
+        }
+        for x in &t {
+            let b = &x.bytes;
+            if b.len() < 4 {
+                fail(mon, hdr, "fits_and_parses", "", &format!("short fragment {}", hex(b)));
+                continue;
+            }
+            if b[1] == 0x81 {
+                if b[0] & 0x10 != 0 {
+                    fail(mon, hdr, "solicited_uns_clear", "", &hex(b));
+                }
+                if b.len() > cfg.sol {
+                    fail(mon, hdr, "fits_and_parses", "", &format!("len {} > {}", b.len(), cfg.sol));
+                }
+                if b[0] & 0x80 != 0 {
+                    // first fragment: sequence number of the request being answered
+                    if !d6_op && Some(b[0] & 0x0F) != last_req_seq {
+                        fail(mon, hdr, "solicited_correlated", "", &format!("op {k}: {} expected seq {:?}", hex(&b[..4]), last_req_seq));
+                    }
+                } else if let Some(p) = &last_sol_tx {
+                    if (b[0] & 0x0F) != ((p[0] & 0x0F) + 1) % 16 {
+                        fail(mon, hdr, "series_consecutive", "", &format!("op {k}"));
+                    }
+                }
+                if !parses_response_objects(&b[4..]) {
+                    fail(mon, hdr, "fits_and_parses", "", &format!("objects do not parse: {}", hex(b)));
+                }
+            } else if b[1] == 0x82 {
+                if b[0] & 0xF0 != 0xF0 {
+                    fail(mon, hdr, "unsolicited_shape", "", &hex(&b[..4]));
+                }
+                if b.len() > cfg.unsol {
+                    fail(mon, hdr, "fits_and_parses", "", &format!("unsol len {} > {}", b.len(), cfg.unsol));
+                }
+                if x.dst != MASTER {
+                    fail(mon, hdr, "unsolicited_shape", "", &format!("dst {}", x.dst));
+                }
+                let is_retry = prev_unsol.as_ref() == Some(b) && has_cb(outs, "cb unsol_timeout");
+                if !is_retry {
+                    if let Some(p) = last_new_unsol_seq {
+                        if (b[0] & 0x0F) != (p + 1) % 16 {
+                            fail(mon, hdr, "unsolicited_numbering", "", &format!("op {k}: seq {} after {}", b[0] & 0x0F, p));
+                        }
+                    }
+                    last_new_unsol_seq = Some(b[0] & 0x0F);
+                }
+                prev_unsol = Some(b.clone());
+                if !parses_response_objects(&b[4..]) {
+                    fail(mon, hdr, "fits_and_parses", "", &format!("objects do not parse: {}", hex(b)));
+                }
+            } else {
+                fail(mon, hdr, "fits_and_parses", "", &format!("bad function {}", b[1]));
+            }
+        }
+        if let Some((_s, dst, f)) = &frag {
+            if delivered_now && accepted_master && to_us_flag && !herr {
+                // silent functions
+                if wellformed && matches!(func, Some(6) | Some(8) | Some(10) | Some(12)) {
+                    if t.iter().any(|x| x.bytes[1] == 0x81) {
+                        fail(mon, hdr, "silent_functions", "", &format!("op {k}: {op}"));
+                    }
+                }
+                // rejection flagged
+                let must_reject = reject.is_some() || (!known_function(f[1]));
+                if must_reject && !matches!(func, Some(0)) {
+                    let replies: Vec<&Tx> = t.iter().filter(|x| x.bytes[1] == 0x81 && x.bytes[0] & 0x80 != 0 && Some(x.bytes[0] & 0x0F) == seq).collect();
+                    let silent_ok = matches!(func, Some(6) | Some(8) | Some(10) | Some(12));
+                    let d7 = reject.as_ref().map(|r| r.contains("d7")).unwrap_or(false);
+                    if replies.is_empty() {
+                        // a deferred READ is answered later; silence is acceptable only then
+                        if !silent_ok && !(func == Some(1) && unsol_waiting.is_some()) {
+                            fail(mon, hdr, "rejection_flagged", "", &format!("op {k}: no reply to {op}"));
+                        }
+                    } else if replies.iter().any(|x| x.bytes[3] & 0x07 == 0) {
+                        fail(mon, hdr, "rejection_flagged", if d7 { "D7" } else { "" }, &format!("op {k}: clean reply to {op}"));
+                    }
+                }
+            }
+            if delivered_now && herr && accepted_master && to_us_flag && f.len() >= 2 && f[1] != 129 && f[1] != 130 {
+                let replies: Vec<&Tx> = t.iter().filter(|x| x.bytes[1] == 0x81 && Some(x.bytes[0] & 0x0F) == seq).collect();
+                if replies.is_empty() || replies.iter().any(|x| x.bytes[3] & 0x07 == 0) {
+                    fail(mon, hdr, "rejection_flagged", "", &format!("op {k}: header error not flagged: {op}"));
+                }
+            }
+        }
+
+        // ------------------------------------------------------------------ C13
+        if has_cb(outs, "cb clear_restart_iin") {
+            restart_cleared = true;
+        }
+        let repeat_op = match (&frag, &last_processed) {
+            (Some((_, _, f)), Some((_, p))) => f == p,
+            _ => false,
+        };
+        if has_cb(outs, "cb broadcast") {
+            let mode = match frag.as_ref().map(|f| f.1) {
+                Some(0xFFFF) => 0,
+                Some(0xFFFE) => 1,
+                _ => 2,
+            };
+            bc_pending = Some(Some(mode));
+        }
+        if has_cb(outs, "cb sol_confirmed") || has_cb(outs, "cb unsol_confirmed") {
+            if bc_pending == Some(Some(1)) {
+                bc_pending = None;
+            } else if let Some(Some(m)) = bc_pending {
+                if has_cb(outs, "cb unsol_confirmed") {
+                    // known finding D16: accepting an unsolicited confirm drops a pending broadcast
+                    // indication of ANY mode although no response has reported it yet
+                    fail(mon, hdr, "broadcast_bit_rule", "D16", &format!("op {k}: broadcast (mode {m}) indication dropped by an unsolicited confirm before it was reported"));
+                    bc_pending = None;
+                }
+            }
+        } else if func == Some(0) && delivered_now && accepted_master && seq.is_some() && frag.as_ref().map(|f| f.2[0] & 0x10 == 0).unwrap_or(false) && bc_pending == Some(Some(1)) && unsol_waiting.is_some() {
+            // a solicited confirm during the unsolicited wait clears a mandatory broadcast silently
+            bc_pending = None;
+        }
+        for x in &t {
+            let b = &x.bytes;
+            if b.len() < 4 {
+                continue;
+            }
+            let resend = sent_this_session.contains(b) || (repeat_op && func != Some(1));
+            if resend && b[2] & 0x01 != 0 {
+                if let Some(Some(m)) = bc_pending {
+                    if m != 1 {
+                        bc_pending = Some(None);
+                    }
+                }
+            }
+            if !resend {
+                let restart = b[2] & 0x80 != 0;
+                if restart == restart_cleared {
+                    fail(mon, hdr, "restart_bit_interval", "", &format!("op {k}: iin1 {:02x} cleared={restart_cleared}", b[2]));
+                }
+                let app = ((b[2] >> 4) & 0x07) | (((b[3] >> 5) & 1) << 3);
+                if app != app_iin & 0x0F {
+                    fail(mon, hdr, "app_bits_mirror", "", &format!("op {k}: got {app:04b} want {:04b}", app_iin & 0x0F));
+                }
+                let bc = b[2] & 0x01 != 0;
+                match bc_pending {
+                    Some(Some(mode)) => {
+                        if !bc {
+                            fail(mon, hdr, "broadcast_bit_rule", "", &format!("op {k}: broadcast bit missing"));
+                        }
+                        if mode == 1 && b[1] == 0x81 && b[0] & 0x20 == 0 {
+                            fail(mon, hdr, "broadcast_bit_rule", "", &format!("op {k}: mandatory broadcast without CON"));
+                        }
+                        if mode != 1 {
+                            bc_pending = None;
+                        }
+                    }
+                    Some(None) => bc_pending = None,
+                    None => {
+                        if bc {
+                            fail(mon, hdr, "broadcast_bit_rule", "", &format!("op {k}: broadcast bit without broadcast"));
+                        }
+                    }
+                }
+            }
+        }
+
+        // ------------------------------------------------------------------ C14
+        // DISABLE_UNSOLICITED processed during the wait ends the series silently
+        if unsol_waiting.is_some() && func == Some(21) && delivered_now && accepted_master && !is_bc && !herr && t.iter().any(|x| x.bytes[1] == 0x81) {
+            if unsol_is_data {
+                not_before = Some(now + cfg.rdelay);
+            }
+            unsol_waiting = None;
+        }
+        for o in outs {
+            if let Some(r) = o.strip_prefix("cb unsol_wait ") {
+                let s: u8 = r.trim().parse().unwrap();
+                if unsol_waiting.is_some() {
+                    fail(mon, hdr, "one_outstanding", "", &format!("op {k}: new unsolicited {s} while {:?} outstanding", unsol_waiting));
+                }
+                let first = t.iter().find(|x| x.bytes.len() >= 4 && x.bytes[1] == 0x82 && (x.bytes[0] & 0x0F) == s).map(|x| x.bytes.clone());
+                unsol_is_data = first.as_ref().map(|b| b.len() > 4).unwrap_or(false);
+                if !unsol_confirmed_once && unsol_is_data {
+                    fail(mon, hdr, "null_until_confirmed", "", &format!("op {k}: data before the first unsolicited confirm"));
+                }
+                if unsol_is_data {
+                    if let Some(nb) = not_before {
+                        if now < nb {
+                            fail(mon, hdr, "series_spacing", "", &format!("op {k}: new series at {now} < {nb}"));
+                        }
+                    }
+                }
+                unsol_waiting = Some(s);
+                unsol_first = first;
+                unsol_retries_seen = 0;
+            } else if let Some(r) = o.strip_prefix("cb unsol_timeout ") {
+                let p: Vec<&str> = r.split_whitespace().collect();
+                if p[1] == "1" {
+                    unsol_retries_seen += 1;
+                    let limit = if unsol_is_data { cfg.retries } else { Some(0) };
+                    if let Some(l) = limit {
+                        if unsol_retries_seen > l {
+                            fail(mon, hdr, "retries_bounded", "", &format!("op {k}: retry {unsol_retries_seen} > {l}"));
+                        }
+                    }
+                } else {
+                    if unsol_is_data {
+                        not_before = Some(now + cfg.rdelay);
+                    }
+                    unsol_waiting = None;
+                }
+            } else if o.starts_with("cb unsol_confirmed") {
+                unsol_confirmed_once = true;
+                unsol_waiting = None;
+                not_before = None;
+            }
+        }
+        // deferred READ
+        if let Some((_s, dst, _f)) = &frag {
+            if delivered_now && accepted_master && to_us_flag && !herr && func != Some(0) {
+                if func == Some(1) && wellformed && unsol_waiting.is_some() && !has_cb(outs, "cb unsol_confirmed") {
+                    pending_deferred = seq;
+                } else {
+                    pending_deferred = None;
+                }
+            } else if delivered_now && herr {
+                pending_deferred = None;
+            } else if delivered_now && is_bc {
+                pending_deferred = None;
+            }
+        }
+        let ended = outs.iter().any(|o| o.starts_with("cb unsol_confirmed") || (o.starts_with("cb unsol_timeout") && o.ends_with(" 0")));
+        if ended {
+            if let Some(s) = pending_deferred.take() {
+                if !t.iter().any(|x| x.bytes.len() >= 4 && x.bytes[1] == 0x81 && x.bytes[0] & 0x80 != 0 && (x.bytes[0] & 0x0F) == s) {
+                    fail(mon, hdr, "read_deferred_not_dropped", "", &format!("op {k}: READ seq {s} not answered when the series ended"));
+                }
+            }
+        }
+
+        // ------------------------------------------------------------------ bookkeeping
+        if let Some((src, dst, f)) = &frag {
+            if delivered_now {
+                let select_ok = f.len() > 2
+                    && f[1] == 3
+                    && to_us_flag
+                    && accepted_master
+                    && {
+                        let sel: Vec<&String> = outs.iter().filter(|o| o.starts_with("cb select")).collect();
+                        let n = control_items(&f[2..]).unwrap_or(0);
+                        !sel.is_empty() && sel.len() == n && sel.iter().all(|o| o.ends_with("-> 0")) && f.len() + 2 <= cfg.sol
+                    };
+                delivered.push(Delivered { frag: f.clone(), src: *src, time: now, op: k, select_ok });
+                if accepted_master && to_us_flag && func != Some(0) && !herr {
+                    last_processed = Some((k, f.clone()));
+                    if func == Some(1) {
+                        last_read_frag = Some(f.clone());
+                    }
+                }
+            }
+        }
+        for o in outs {
+            if o.starts_with("cb sol_wait") {
+                in_sol_wait = true;
+                series_first_hdr = t.iter().find(|x| x.bytes[1] == 0x81).map(|x| x.bytes[..4.min(x.bytes.len())].to_vec());
+            } else if o.starts_with("cb sol_timeout") || o.starts_with("cb sol_new_request") {
+                in_sol_wait = false;
+            } else if o.starts_with("cb sol_confirmed") {
+                in_sol_wait = t.iter().any(|x| x.bytes.len() >= 2 && x.bytes[1] == 0x81 && x.bytes[0] & 0x20 != 0);
+            }
+        }
+        for x in &t {
+            if x.bytes.len() >= 2 {
+                if x.bytes[1] == 0x81 {
+                    last_sol = x.bytes[0] & 0x0F;
+                    last_sol_tx = Some(x.bytes.clone());
+                } else if x.bytes[1] == 0x82 {
+                    last_uns = x.bytes[0] & 0x0F;
+                }
+            }
+            sent_this_session.insert(x.bytes.clone());
+        }
+    }
+    stats.hit("monitored_cases");
+}
+
+/// independent decoder of the object headers an outstation response can carry in this engine
+fn parses_response_objects(mut b: &[u8]) -> bool {
+    while !b.is_empty() {
+        if b.len() < 3 {
+            return false;
+        }
+        let (g, v, q) = (b[0], b[1], b[2]);
+        b = &b[3..];
+        let size: usize = match (g, v) {
+            (1, 2) => 1,
+            (2, 1) => 1,
+            (2, 2) => 7,
+            (30, 1) => 5,
+            (32, 1) => 5,
+            (12, 1) => 11,
+            (41, 1) => 5,
+            (41, 2) => 3,
+            (41, 3) => 5,
+            (41, 4) => 9,
+            (52, 1) | (52, 2) => 2,
+            (51, 1) | (51, 2) => 6,
+            _ => return false,
+        };
+        match q {
+            0x00 => {
+                if b.len() < 2 || b[1] < b[0] {
+                    return false;
+                }
+                let n = (b[1] - b[0]) as usize + 1;
+                b = &b[2..];
+                if b.len() < n * size {
+                    return false;
+                }
+                b = &b[n * size..];
+            }
+            0x01 => {
+                if b.len() < 4 {
+                    return false;
+                }
+                let s = u16::from_le_bytes([b[0], b[1]]);
+                let e = u16::from_le_bytes([b[2], b[3]]);
+                if e < s {
+                    return false;
+                }
+                let n = (e - s) as usize + 1;
+                b = &b[4..];
+                if b.len() < n * size {
+                    return false;
+                }
+                b = &b[n * size..];
+            }
+            0x07 => {
+                if b.is_empty() {
+                    return false;
+                }
+                let n = b[0] as usize;
+                b = &b[1..];
+                if b.len() < n * size {
+                    return false;
+                }
+                b = &b[n * size..];
+            }
+            0x17 => {
+                if b.is_empty() {
+                    return false;
+                }
+                let n = b[0] as usize;
+                b = &b[1..];
+                if b.len() < n * (size + 1) {
+                    return false;
+                }
+                b = &b[n * (size + 1)..];
+            }
+            0x28 => {
+                if b.len() < 2 {
+                    return false;
+                }
+                let n = u16::from_le_bytes([b[0], b[1]]) as usize;
+                b = &b[2..];
+                if b.len() < n * (size + 2) {
+                    return false;
+                }
+                b = &b[n * (size + 2)..];
+            }
+            _ => return false,
+        }
+    }
+    true
+}
